@@ -145,7 +145,7 @@ Ltac cl3 :=
 
 Lemma inv3_step s a s' : Inv1 s -> Inv2 s -> Inv3 s -> stepF s a = Some s' -> Inv3 s'.
 Proof.
-  intros [Ipl Ihun Ihcn Ihtm Irun Isusp Iwk [Inn Ine] Ipre Icd] [Tn Tf Kt Kd Kl Kp Ka Hs He Hd Wd]
+  intros [Ipl Ihun Ihcn Ihtm Irun Isusp Iwk [Inn Ine] Ipre Icd ((Id1 & Id2 & Id3 & Id4) & Iok & Itn)] [Tn Tf Kt Kd Kl Kp Ka Hs He Hd Wd]
          [Hsr Ksr Pn Pw Tw Kf Nt Cb Cbk St Ck S0 S1 S2 S3 S4 Prw C2s T0] H.
   clear Tn Tf Kt Kd Kl Kp Ka He Hd Wd.
   destruct a.
